@@ -72,7 +72,12 @@ Next ==
                         \/ DoAllX(<<new, Op("T", 1, p), Op("UT", 1, <<>>)>>)
                    \/ Len(s) >= 1 /\ \E sl \in SliceListsPrefix(s, AxisPaletteSmall) :
                         /\ ~SliceBad(s, sl) /\ ~SliceOpen(s, sl)
-                        /\ DoAllX(<<new, Op("Slice", 1, sl)>>)
+                        /\ \/ DoAllX(<<new, Op("Slice", 1, sl)>>)
+                           \* the mask written THROUGH the view: only the view's elements may change
+                           \/ DoAllX(<<new, Op("Slice", 1, sl), Op("MaskPred", 2, <<"gt", 2, 0>>)>>)
+                           \* (softness is set on the view itself: whether a view inherits it from its source is not stated)
+                           \/ DoAllX(<<new, Op("Slice", 1, sl), Op("Soften", 2, <<1>>), Op("MaskPred", 2, <<"le", 3, 0>>)>>)
+                           \/ DoAllX(<<new, Op("Slice", 1, sl), Op("ResetMask", 2, <<>>)>>)
               [] Mode = "ops" ->
                    \E m2 \in {[i \in 1..Prod(s) |-> 0], [i \in 1..Prod(s) |-> IF i = 1 THEN 1 ELSE 0], [i \in 1..Prod(s) |-> 1 - m[i]]} :
                      \/ DoAllX(<<new, Op("NewMasked", 0, <<s, m2>>), Op("Arith", 1, <<"OP", "TT", 2, "safe", 0>>)>>)
